@@ -105,6 +105,8 @@ def run(ck, fx, cg, tier):
                 bad = [h for h in L.REORDERING if L._has_head(src, h)] if isinstance(src, tuple) else []
                 if bad:
                     probs.append("writer: the sequence written for `%s` passes through %s" % (fmt_term(src), "/".join(bad)))
+                if kind.startswith("lenbytes:") and not d.get("len_is_byte_len"):
+                    probs.append("writer: the count written before the bytes is %s, not the number of bytes that follow — the reader consumes exactly `count` bytes" % d.get("len_term"))
             if v == "Boolean":
                 ok = len(wt) == 2 and len(rt) == 2 and wt[1][2] == 1 and rt[1][2] == 1
                 if not ok:
@@ -334,6 +336,9 @@ def _reload(ck, fx, cg):
             n_fail += 1
             made = [e for e in p["eff"] if e["k"] == "call" and (e["args"][0][1].startswith("anyhow::private::") or e["args"][0][1].endswith("::format_err")
                                                                   or e["args"][0][1].startswith("anyhow::Error::msg"))]
+            # a constant that is referenced as a name but is not a String / an index outside the pool is a decoding
+            # failure wherever the accessor is called from (a closure of a collect or the body of a loop)
+            made = [e for e in made if ((_sh.fn_at(fx, e["at"]) or {}).get("impl_self") or "") not in (L.PO, "bytecode::program::ConstantPool")]
             raised = o[0] == "panic" and isinstance(o[1], str) and ("panic_fmt" in o[1] or "begin_panic" in o[1] or "panic_display" in o[1] or "assert_failed" in o[1])
             if made or raised:
                 explicit.append((made[-1]["at"] if made else ([e for e in p["eff"] if e.get("at")] or [{"at": ""}])[-1]["at"]))
